@@ -10,17 +10,22 @@ import (
 
 // Env is the environment for translating a spec expression.
 type Env struct {
-	ex    *Exec
-	vars  map[string]*Val
-	cur   *State
-	old   *State
-	fr    *Frame
-	inOld bool
+	ex     *Exec
+	vars   map[string]*Val
+	cur    *State
+	old    *State
+	prev   *State // state at the head of the current loop iteration (step clauses)
+	fr     *Frame
+	inOld  bool
+	inPrev bool
 }
 
 func (e *Env) state() *State {
 	if e.inOld {
 		return e.old
+	}
+	if e.inPrev && e.prev != nil {
+		return e.prev
 	}
 	return e.cur
 }
@@ -100,6 +105,15 @@ func (ex *Exec) tr(e *SExpr, env *Env) *Val {
 		env.inOld = true
 		v := ex.tr(e.Args[0], env)
 		env.inOld = save
+		return v
+	case "prev":
+		if env.prev == nil {
+			panic(specErr{"prev() is only available in step clauses"})
+		}
+		save := env.inPrev
+		env.inPrev = true
+		v := ex.tr(e.Args[0], env)
+		env.inPrev = save
 		return v
 	case "field":
 		x := ex.tr(e.Args[0], env)
